@@ -268,6 +268,12 @@ func confirm(t *testing.T, h Harness, res *report.Result, sc Scenario, s *vsched
 		if !found || len(s2.Points) != len(s.Points) {
 			res.Note("ENGINE-ERROR nondeterministic violation %s in %s: replay %d gave a different result (points %d vs %d)", sig, sc.Name, k, len(s2.Points), len(s.Points))
 			res.Count("engine_errors", 1)
+			if dir := os.Getenv("VERIF_DIVERGE_DIR"); dir != "" { // diagnostics: the same choices twice more, with traces
+				s3, _ := h.Exec(t, sc, vsched.Options{Prefix: choices, MaxSteps: sc.MaxSteps, Trace: true, Postpone: sc.Postpone})
+				b, _ := json.MarshalIndent(map[string]any{"scenario": sc, "choices": choices, "points_first": len(s.Points), "points_a": len(s2.Points), "points_b": len(s3.Points),
+					"found_a": found, "trace_a": s2.Trace, "trace_b": s3.Trace, "first_points": s.Points, "a_points": s2.Points}, "", " ")
+				os.WriteFile(fmt.Sprintf("%s/diverged-%d-%d.json", dir, os.Getpid(), len(choices)), b, 0o644) //nolint:errcheck
+			}
 			return
 		}
 		trace = s2.Trace
